@@ -1,0 +1,28 @@
+//go:build verif
+
+// Contracts for package memtable, read by /verif/kvc (contract-based deductive verification).
+// This file is comment-only and excluded from every build without the `verif` tag.
+package memtable
+
+// ---- C08: ghost history of the stamps handed to the pool: maxStamp = largest sequence number ever passed
+// to Put/Delete, lastStamp = the most recent one, inserts = number of Put/Delete calls.
+//@ ghost field (*MemTablePool) maxStamp uint64
+//@ ghost field (*MemTablePool) lastStamp uint64
+//@ ghost field (*MemTablePool) inserts int
+
+//@ func (*MemTablePool).Put
+//@   ensures[C08] p.maxStamp == max(old(p.maxStamp), seqNum) && p.lastStamp == seqNum && p.inserts == old(p.inserts) + 1
+//@   ghost exit: p.maxStamp = max(p.maxStamp, seqNum)
+//@   ghost exit: p.lastStamp = seqNum
+//@   ghost exit: p.inserts = p.inserts + 1
+//@ func (*MemTablePool).Delete
+//@   ensures[C08] p.maxStamp == max(old(p.maxStamp), seqNum) && p.lastStamp == seqNum && p.inserts == old(p.inserts) + 1
+//@   ghost exit: p.maxStamp = max(p.maxStamp, seqNum)
+//@   ghost exit: p.lastStamp = seqNum
+//@   ghost exit: p.inserts = p.inserts + 1
+
+// The handler given to the log replay keeps the running maximum of the delivered sequence numbers.
+//@ func RecoverFromWAL$1
+//@   requires entry != nil && opts != nil
+//@   ensures[C08] maxSeqNum >= old(maxSeqNum)
+//@   ensures[C08] entry.SequenceNumber <= opts.MaxSequenceNumber ==> maxSeqNum >= entry.SequenceNumber
